@@ -159,14 +159,14 @@ def coincidences(pos, V, origin=None, tol=1e-6, max_pairs=20, dense_max=700):
     if N < 2:
         return out
     if N <= dense_max:
-        for i in range(N - 1):
-            d = s[i + 1:] - s[i]
-            dv = (d - np.rint(d)) @ V
-            dm = np.sqrt((dv * dv).sum(axis=1))
-            for k in np.where(dm <= tol)[0]:
-                out.append((i, i + 1 + int(k), float(dm[k])))
-                if len(out) >= max_pairs:
-                    return out
+        d = s[:, None, :] - s[None, :, :]
+        d -= np.rint(d)
+        dv = d @ V
+        dm = np.sqrt((dv * dv).sum(axis=2))
+        iu, ju = np.triu_indices(N, 1)
+        hit = np.where(dm[iu, ju] <= tol)[0]
+        for k in hit[:max_pairs]:
+            out.append((int(iu[k]), int(ju[k]), float(dm[iu[k], ju[k]])))
         return out
     from scipy.spatial import cKDTree
     f = s - np.floor(s)
